@@ -97,12 +97,56 @@ R.update({
     "C18-seed5": ("C18", "C18 quick (sampling_quick residue check)", "at once", ""),
 })
 
+# round 3 (same session): three more per property, asked to be as hard to notice as possible; near-duplicates of earlier
+# changes (same function, same mechanism) were dropped, 37 kept; names <PID>-seed6..
+R.update({
+    "C01-seed6": ("C01", "C01 quick (c01_odd)", "after strengthening", "a container made only of empty containers, ([],), next to (1,): choice grammar of odd shapes added to the pipeline"),
+    "C01-seed7": ("C01", "C01 quick (c01_realrun, gen_mixed); also C02 quick (realrun)", "after strengthening", "a generator that yields [1, 2] and then 3: added to the recorded workload"),
+    "C02-seed6": ("C02", "C02 quick (realrun, gen_mixed)", "after strengthening", "same change as C01-seed7"),
+    "C02-seed7": ("C02", "C02 quick (realrun: three-level super() chain reached through the leaf class first)", "after strengthening", "workload extended"),
+    "C02-seed8": ("C02", "C02 quick (realrun: all_kinds)", "at once", ""),
+    "C03-seed6": ("C03", "C03 quick (hookfree: journaling __hash__ of a global named like the function / a caller's local)", "at once", ""),
+    "C03-seed7": ("C03", "C03 quick (hookfree: bound-method export + failing logger + log formatting)", "after strengthening", "needs log() to fail AND the function resolved to a bound method AND log records really formatted"),
+    "C04-seed6": ("C04", "C04 quick (sound_nestedalt_2)", "after strengthening", "needs one key carrying two value types across two-level merges"),
+    "C04-seed7": ("C04", "C04 quick (sound_cls_2)", "after strengthening", "needs two different class objects in one container"),
+    "C04-seed8": ("C04", "C04 quick (sound_small_2 multiplicity check; sound_dict3_3)", "at once", ""),
+    "C05-seed6": ("C05", "C05 quick (tight_odd_2)", "after strengthening", "needs ONE mutable object stored at two places of a value"),
+    "C05-seed7": ("C05", "C05 quick (tight_nested2_2)", "at once", ""),
+    "C05-seed8": ("C05", "C05 quick (tight_small_2)", "at once", ""),
+    "C06-seed6": ("C06", "C06 quick (c06_gen2)", "after strengthening", "needs ONE generator call yielding two small dicts with different keys (the stored trace is then oversize): generator2 configuration"),
+    "C07-seed6": ("C07", "C07 quick (types_nest4_pairs)", "after strengthening", "two rewriters sound alone, narrowing when chained RewriteLargeUnion -> RemoveEmptyContainers: third alphabet for ordered pairs"),
+    "C07-seed7": ("C07", "C07 quick (types_nest8)", "after strengthening", "needs a tuple whose element type is a subscripted generic, first among > n tuples"),
+    "C08-seed6": ("C08", "C08 quick (rt_trace)", "at once", ""),
+    "C08-seed7": ("C08", "C08 quick (rt_types_enc1)", "after strengthening", "needs an importable class whose metaclass is not type (Enum, ABC)"),
+    "C09-seed6": ("C09", "C09 quick (atomic_big_quick)", "after strengthening", "multi-row INSERT statements were not understood by the model connection (166-row chunks, each its own transaction)"),
+    "C09-seed7": ("C09", "C09 quick (atomic_rich_quick)", "after strengthening", "needs two traces of one batch that differ only in their yield type"),
+    "C09-seed8": ("C09", "C09 quick (atomic_rich_quick)", "after strengthening", "needs an unserialisable trace followed by a serialisable trace of the SAME function"),
+    "C10-seed6": ("C10", "C10 quick (stale_full3)", "at once", ""),
+    "C10-seed7": ("C10", "C10 quick (stale_full3)", "at once", "caught through the slot-wrapper kind; functools.partial / callable-instance kinds added as well"),
+    "C10-seed8": ("C10", "C10 quick (apply_nothing)", "after strengthening", "only `apply` is affected, for a removed module: apply with nothing decodable added"),
+    "C11-seed6": ("C11", "C11 quick (tv_quick)", "at once", ""),
+    "C11-seed7": ("C11", "C11 quick (collide3q)", "at once", ""),
+    "C12-seed6": ("C12", "C12 quick (genmod_quick, async-generator kind)", "after strengthening", "kind added"),
+    "C13-seed6": ("C13", "C13 quick (annot_quick)", "at once", ""),
+    "C13-seed7": ("C13", "C13 quick (annot_quick)", "at once", ""),
+    "C14-seed6": ("C14", "C14 quick (diamond1, family 'tuples')", "at once", ""),
+    "C14-seed7": ("C14", "C14 quick (store_order2)", "at once", ""),
+    "C16-seed6": ("C16", "C16 quick (confine_quick)", "after strengthening", "needs TYPE_CHECKING imported only inside a try block or a function"),
+    "C17-seed6": ("C17", "C17 quick (deffilter_quick, textual sibling of a library root)", "at once", ""),
+    "C17-seed7": ("C17", "C17 quick (gate: two code objects sharing file, line and name)", "at once", ""),
+    "C18-seed6": ("C18", "C18 quick (sampling_quick, coroutine frame)", "after strengthening", "needs a coroutine whose suspensions are awaits"),
+    "C18-seed7": ("C18", "not reported as a violation: C18 quick answers exit 2 (the tracer draws with random.getrandbits, which the environment stub does not model)", "outside the claim", "only the statistical 'about one in N' clause is affected (1/2 instead of 1/3 for N=3); that clause rests on random.randrange, which is trusted"),
+    "C18-seed8": ("C18", "C18 quick (sampling_quick, resumption by throw())", "after strengthening", "CPython 3.12 delivers the thrown exception as the call event's arg: added to the environment model"),
+})
+
 
 def main():
     lines = ["# Seeded changes and which checks catch them", "",
              "Each directory holds patch.diff (applies to /repo's HEAD with `git -C /repo apply`), demo.py (exit 0 / PASS on the unchanged tree, exit 1 / FAIL with the patch) and meta.json.",
              "All were produced by sub-agents that saw only the property text and a scratch worktree; each was confirmed (tests pass with the patch, demo fails with it and passes without) "
-             "by tools/try_seed.sh before the check was run against it.", "",
+             "by tools/try_seed.sh before the check was run against it. Three rounds: seed1-2 (first session), seed3-5 and seed6-8 (second session). "
+             "'when' says whether the quick check as it stood when the change was first tried caught it. After the strengthenings every change is caught by the "
+             "quick tier of its property, except two that are answered exit 2 (inconclusive) by design (C09-seed5, C18-seed7).", "",
              "| seed | property | caught by | when | note |", "|---|---|---|---|---|"]
     for name, (pid, by, when, note) in sorted(R.items()):
         d = os.path.join(HERE, "seeded", name)
